@@ -22,7 +22,7 @@ OUTSIDE = ['convergence of Newton-Raphson / fsolve FROM THE NEUTRAL POSE to 1e-3
 ASSUMPTIONS = ['np.linalg.solve on the 6x6 Newton system: arbitrary vector', 'scipy fsolve(f, x0) returns x0 when f(x0) = 0 exactly, anything otherwise',
                'summary mode for Exp/Log of composed rotations (C01 contracts)']
 EXPLORER_DEFAULTS = {'quick': dict(prove_timeout_ms=20000, branch_timeout_ms=3000, time_budget_s=600, max_paths=40, max_decisions=200),
-                     'thorough': dict(prove_timeout_ms=60000, branch_timeout_ms=5000, time_budget_s=2400, max_paths=200, max_decisions=300)}
+                     'thorough': dict(prove_timeout_ms=60000, branch_timeout_ms=5000, time_budget_s=1200, max_paths=200, max_decisions=300)}
 TOL = '1e-8'
 
 
